@@ -32,7 +32,12 @@ RULE = (
     "indices just above 2**25, around 8e7 and above 2**31 (times to within one frame, as everywhere), token ids "
     "and alignment labels at 2**24+1 and 2**31+-1. ALIAS SPELLINGS: --file-suffix '' on cases of every family, "
     "replace/ignore lists that overlap (a replace source or target that is also ignored, a swap), batch sizes "
-    "below / equal to / above the corpus size. GLOBAL STATE: ~36 cases of every family (and all late-time-stamp "
+    "below / equal to / above the corpus size. DIFFERING ID SETS: ref/ and hyp/ with an utterance missing on either "
+    "side or on both, x {total, --per-utt, --distances, both} x batch sizes x costs (and lists): every printed "
+    "figure is recounted over the matched utterances only; without --warn-missing an error is required. "
+    "ARBITRARY RANK: compute-mvn-stats on files of rank 1, 2 and 3 with the feature dimension at every position "
+    "and --dim spelled positive, negative and by default (13 layouts x 6 length sets x --bessel x groups); "
+    "subsetting by length on rank-1 and rank-3 files. GLOBAL STATE: ~36 cases of every family (and all late-time-stamp "
     "cases) are evaluated with the stock default dtype and under torch.set_default_dtype(float64) in the "
     "parent: all observations must coincide, and under float64 the serial run must equal every worker schedule, "
     "the virtual spawn pool running its work with the default dtype reset to float32 as a fresh interpreter "
